@@ -12,6 +12,7 @@ import sys
 import time
 import traceback
 
+EVIDENCE_DIR = None
 ROOT = os.path.dirname(os.path.dirname(os.path.abspath(__file__)))
 EXTRACTION_DROPS = [
     "type annotations, docstrings, comments (not executed)",
@@ -109,7 +110,12 @@ def main(argv=None):
     seed = int(os.environ.get("VERIF_SEED", "0") or 0)
     pid = a.pid
     t0 = time.time()
-    os.makedirs(os.path.join(ROOT, "evidence"), exist_ok=True)
+    # evidence/ describes runs against /repo itself; runs against another tree (PYVC_REPO=<scratch worktree>: mutants,
+    # seeded changes) write their record under .scratch/ so that they never overwrite it
+    global EVIDENCE_DIR
+    full_run = os.path.realpath(os.environ.get("PYVC_REPO", "/repo")) == "/repo" and not a.only and not a.no_bounded and not os.environ.get("PYVC_SCENARIO_BUDGET")
+    EVIDENCE_DIR = os.path.join(ROOT, "evidence") if full_run else os.path.join(ROOT, ".scratch", "evidence")  # partial runs (--only, --no-bounded, reduced budget) likewise
+    os.makedirs(EVIDENCE_DIR, exist_ok=True)
     os.makedirs(os.path.join(ROOT, "replays"), exist_ok=True)
     os.environ["PYVC_TIER"] = a.tier
     mod = _load(pid)
@@ -309,7 +315,7 @@ def main(argv=None):
         property_id=pid, tier=a.tier if a.tier in ("quick", "thorough") else "quick", seed=seed, level=level, coverage=cov,
         assumptions=ENCODING_ASSUMPTIONS + list(getattr(mod, "ASSUMPTIONS", [])), wall_s=round(wall, 2), violations=len(violations),
     )
-    json.dump(ev, open(os.path.join(ROOT, "evidence", f"{pid}.json"), "w"), indent=1, default=str)
+    json.dump(ev, open(os.path.join(EVIDENCE_DIR, f"{pid}.json"), "w"), indent=1, default=str)
     if a.update_baseline and not violations:
         save_baseline(pid, [n for n, s in ob_names.items() if s == "proved"], functions)
     # ---- output
